@@ -207,8 +207,10 @@ def r1_operator_coherence(cx):
 class CmpInterp(object):
     """Abstract evaluation of rpm_version_compare(left, right) for signs (e, v, r) of epoch, version, release."""
 
-    def __init__(self, fn, e, v, r):
+    def __init__(self, fn, e, v, r, mod=None, depth=0):
         self.fn = fn
+        self.mod = mod
+        self.depth = depth
         self.sig = {"epoch": e, "version": v, "release": r}
         ps = params(fn)
         self.L, self.R = ps[0], ps[1]
@@ -284,6 +286,13 @@ class CmpInterp(object):
             if (a[0], b[0]) == ("R", "L"):
                 return -self.sig[a[1]]
             raise Unknown("MISMATCH: _rpm_vercmp compares a package with itself")
+        if isinstance(e, ast.Call) and isinstance(e.func, ast.Name) and self.mod is not None and self.depth < 3 and len(e.args) == 2 and not e.keywords \
+                and sorted(U(a) for a in e.args) == sorted([self.L, self.R]):
+            fs = [x for x in self.mod.tree.body if isinstance(x, FUNC_TYPES) and x.name == e.func.id and len(params(x)) == 2]
+            if len(fs) == 1:
+                swap = U(e.args[0]) == self.R
+                sub = CmpInterp(fs[0], *[(-self.sig[k] if swap else self.sig[k]) for k in ("epoch", "version", "release")], mod=self.mod, depth=self.depth + 1)
+                return sub.run()
         if isinstance(e, ast.Compare) and len(e.ops) == 1:
             if isinstance(e.ops[0], ast.Is):
                 return False
@@ -348,7 +357,7 @@ def r2_field_order(cx):
             for r in (-1, 0, 1):
                 want = e if e else v if v else r
                 try:
-                    got = CmpInterp(fn, e, v, r).run()
+                    got = CmpInterp(fn, e, v, r, mod=m).run()
                 except Unknown as u:
                     if "MISMATCH" in str(u):
                         cx.bad(fn, "each comparison takes the same field from the left and the right package", construct=str(u))
@@ -358,7 +367,7 @@ def r2_field_order(cx):
                 sg = (got > 0) - (got < 0) if isinstance(got, int) and not isinstance(got, bool) else None
                 cx.require(sg == want, fn, "sign(epoch)=%+d sign(version)=%+d sign(release)=%+d -> result sign %+d (lexicographic epoch/version/release)" % (e, v, r, want),
                            construct="(e,v,r)=(%+d,%+d,%+d) -> %r" % (e, v, r, got))
-    ep = [x for x in find_calls(fn.body, name="int") if "epoch" in U(x)]
+    ep = [x for f_ in feat.region(m, fn) for x in find_calls(f_.body, name="int") if "epoch" in U(x)]
     cx.require(len(ep) == 2, fn, "epochs are compared as integers", rule="C13.R2", construct="int(left.epoch), int(right.epoch)")
 
 
@@ -405,7 +414,8 @@ def r4_normalisation(cx):
 
 def _main_loops(fn, ps):
     """Index of the segment loop among the top-level statements: the loop over both heads that contains the returns."""
-    c = [i for i, st in enumerate(fn.body) if isinstance(st, ast.While) and all(("%s[0]" % p) in U(st.test) for p in ps)]
+    c = [i for i, st in enumerate(fn.body) if isinstance(st, ast.While) and (all(("%s[0]" % p) in U(st.test) for p in ps)
+                                                                             or (isinstance(st.test, ast.Constant) and st.test.value in (True, 1) and all(("%s[0]" % p) in U(st) for p in ps)))]
     if len(c) > 1:
         c = [i for i in c if any(isinstance(n, ast.Return) for n in ast.walk(fn.body[i]))]
     return c
